@@ -84,6 +84,10 @@ type DFA struct {
 	// These slots represent capture positions at the match (END positions)
 	matchSlots []uint32
 
+	// endOnly[i] is true if state i is a match state whose match lies behind
+	// \z or a non-multiline $: it counts at the end of the input only
+	endOnly []bool
+
 	// Minimum match state ID for fast match detection
 	// States with ID >= minMatchID are match states
 	minMatchID StateID
@@ -134,6 +138,13 @@ func (d *DFA) IsMatch(input []byte) bool {
 	state := d.startState
 
 	for _, b := range input {
+		// A match that holds here decides (early termination), also in the start
+		// state (a* on "b"); a match behind \z / $ counts only when no input is
+		// left (a$ on "ab")
+		if d.isMatchState(state) && !(int(state) < len(d.endOnly) && d.endOnly[state]) {
+			return true
+		}
+
 		class := d.classes.Get(b)
 		trans := d.getTransition(state, class)
 
@@ -142,11 +153,6 @@ func (d *DFA) IsMatch(input []byte) bool {
 		}
 
 		state = trans.NextState()
-
-		// Check for match (early termination)
-		if d.isMatchState(state) {
-			return true
-		}
 	}
 
 	// Check final state
